@@ -347,4 +347,425 @@ theorem lscan_again : ∀ (rest : List (List Event)) (i : Nat) (best : Event) (b
             rw [ih _ _ _ hs' hn']
         · simp only [lscan, hlt, heq, if_false, Bool.false_eq_true]; rw [ih _ _ _ hs' hn']
 
+/-! ### the guard of the collapse -/
+
+/-- `x` is the only event of `l` at its instant -/
+def Lone (x : Event) (l : List Event) : Prop := ∀ z ∈ l, key z.from_ = key x.from_ → z = x
+
+/-- an occurrence present in both lists is, in each of them, the only event at its instant -/
+def Shared (l1 l2 : List Event) : Prop :=
+  ∀ x ∈ l1, ∀ y ∈ l2, evEq x y = true → Lone x l1 ∧ Lone y l2
+
+/-- no source lists an occurrence twice, and an occurrence listed by two sources is in both
+the only event at its instant -/
+def Guard (ls : List (List Event)) : Prop := (∀ l ∈ ls, NoTwin l) ∧ ls.Pairwise Shared
+
+/-- no event of the lists is identical to `e` -/
+def Clean (e : Event) (ls : List (List Event)) : Prop := ∀ l ∈ ls, ∀ x ∈ l, evEq x e = false
+
+theorem clean_cons (e : Event) (l : List Event) (ls : List (List Event)) :
+    Clean e (l :: ls) ↔ (∀ x ∈ l, evEq x e = false) ∧ Clean e ls := by
+  simp only [Clean, List.mem_cons, forall_eq_or_imp]
+
+theorem clean_append (e : Event) (A B : List (List Event)) :
+    Clean e (A ++ B) ↔ Clean e A ∧ Clean e B := by
+  simp only [Clean, List.mem_append, or_imp, forall_and]
+
+theorem clean_of_empty (e : Event) {E : List (List Event)} (h : ∀ l ∈ E, l = []) : Clean e E := by
+  intro l hl x hx; rw [h l hl] at hx; cases hx
+
+theorem Lone.suffix {x : Event} {l l' : List Event} (h : Lone x l) (s : l' <:+ l) : Lone x l' :=
+  fun z hz => h z (s.subset hz)
+
+theorem Shared.suffix {a b a' b' : List Event} (h : Shared a b) (sa : a' <:+ a) (sb : b' <:+ b) :
+    Shared a' b' := by
+  intro x hx y hy he
+  obtain ⟨h1, h2⟩ := h x (sa.subset hx) y (sb.subset hy) he
+  exact ⟨h1.suffix sa, h2.suffix sb⟩
+
+theorem Guard.suf {ls' ls : List (List Event)} (h : LSuf ls' ls) (g : Guard ls) : Guard ls' := by
+  refine ⟨?_, LSuf.pairwise (fun a b a' b' r sa sb => Shared.suffix r sa sb) h g.2⟩
+  intro l' hl'
+  obtain ⟨l, hl, hs⟩ := h.mem l' hl'
+  exact (g.1 l hl).suffix hs
+
+theorem gt_clean {b' c : Event} {x : List Event} (h1 : evLt b' c = true)
+    (h2 : ∀ z ∈ x, evLt z c = false) : ∀ z ∈ x, evEq z b' = false :=
+  fun z hz => evEq_false_of_gt (lt_of_lt_of_le h1 (h2 z hz))
+
+/-- under the guard the scan leaves no event identical to its best except the best itself -/
+theorem lscan_collapse : ∀ (rest : List (List Event)) (i : Nat) (best : Event) (bi : Nat),
+    (∀ l ∈ rest, Sorted l) → (∀ l ∈ rest, NoTwin l) → rest.Pairwise Shared →
+    (∀ l ∈ rest, ∀ y ∈ l, evEq y best = true → Lone y l) →
+    ((lscan rest i best bi).2 = (best, bi) ∧ Clean best (lscan rest i best bi).1) ∨
+    ∃ pre t post, (lscan rest i best bi).1 = pre ++ ((lscan rest i best bi).2.1 :: t) :: post ∧
+      (lscan rest i best bi).2.2 = i + pre.length ∧ evLt (lscan rest i best bi).2.1 best = true ∧
+      Clean (lscan rest i best bi).2.1 (pre ++ t :: post) := by
+  intro rest
+  induction rest with
+  | nil => intro i best bi _ _ _ _; exact Or.inl ⟨rfl, fun l hl => (by cases hl)⟩
+  | cons l rest ih =>
+    intro i best bi hs hn hc hb
+    have hs' : ∀ l ∈ rest, Sorted l := fun l hl => hs l (List.mem_cons_of_mem _ hl)
+    have hn' : ∀ l ∈ rest, NoTwin l := fun l hl => hn l (List.mem_cons_of_mem _ hl)
+    have hc' := (List.pairwise_cons.mp hc)
+    have hb' : ∀ l ∈ rest, ∀ y ∈ l, evEq y best = true → Lone y l :=
+      fun l hl => hb l (List.mem_cons_of_mem _ hl)
+    -- lifting the second alternative over one more list in front
+    have lift : ∀ (x : List Event) (b c : Event) (k : Nat), (∀ z ∈ x, evLt z b = false) →
+        (evLt b c = true ∨ b = c) →
+        (∃ pre t post, (lscan rest (i+1) b k).1 = pre ++ ((lscan rest (i+1) b k).2.1 :: t) :: post ∧
+          (lscan rest (i+1) b k).2.2 = i + 1 + pre.length ∧ evLt (lscan rest (i+1) b k).2.1 b = true ∧
+          Clean (lscan rest (i+1) b k).2.1 (pre ++ t :: post)) →
+        ∃ pre t post, x :: (lscan rest (i+1) b k).1 = pre ++ ((lscan rest (i+1) b k).2.1 :: t) :: post ∧
+          (lscan rest (i+1) b k).2.2 = i + pre.length ∧ evLt (lscan rest (i+1) b k).2.1 c = true ∧
+          Clean (lscan rest (i+1) b k).2.1 (pre ++ t :: post) := by
+      intro x b c k hx hbc ⟨pre, t, post, h1, h2, h3, h4⟩
+      refine ⟨x :: pre, t, post, ?_, ?_, ?_, ?_⟩
+      · rw [h1]; rfl
+      · rw [h2, List.length_cons]; omega
+      · rcases hbc with hbc | rfl
+        · exact evLt_trans h3 hbc
+        · exact h3
+      · rw [List.cons_append, clean_cons]
+        exact ⟨gt_clean h3 hx, h4⟩
+    cases l with
+    | nil =>
+      simp only [lscan]
+      rcases ih (i+1) best bi hs' hn' hc'.2 hb' with h | h
+      · left
+        refine ⟨h.1, ?_⟩
+        rw [clean_cons]; exact ⟨fun x hx => (by cases hx), h.2⟩
+      · right
+        exact lift [] best best bi (fun z hz => by cases hz) (Or.inr rfl) h
+    | cons h t =>
+      have hht := (hs _ List.mem_cons_self).head_le
+      have hnt := List.pairwise_cons.mp (hn _ List.mem_cons_self)
+      simp only [lscan]
+      split
+      · rename_i hlt
+        right
+        have hbh : ∀ l ∈ rest, ∀ y ∈ l, evEq y h = true → Lone y l := by
+          intro l hl y hy he
+          exact (hc'.1 l hl h List.mem_cons_self y hy (evEq_symm he)).2
+        rcases ih (i+1) h i hs' hn' hc'.2 hbh with h' | h'
+        · refine ⟨[], t, (lscan rest (i+1) h i).1, ?_, ?_, ?_, ?_⟩
+          · rw [h'.1]; rfl
+          · rw [h'.1]; rfl
+          · rw [h'.1]; exact hlt
+          · rw [h'.1, List.nil_append, clean_cons]
+            refine ⟨?_, h'.2⟩
+            intro x hx
+            rw [evEq_comm]; exact hnt.1 x hx
+        · exact lift (h :: t) h best i hht (Or.inl hlt) h'
+      · rename_i hlt
+        have hlt : evLt h best = false := by simpa using hlt
+        have hge : ∀ z ∈ h :: t, evLt z best = false := fun z hz => le_trans' hlt (hht z hz)
+        split
+        · rename_i heq
+          rcases ih (i+1) best bi hs' hn' hc'.2 hb' with h' | h'
+          · left
+            refine ⟨h'.1, ?_⟩
+            rw [clean_cons]
+            refine ⟨?_, h'.2⟩
+            intro x hx
+            cases hq : evEq x best
+            · rfl
+            · have := hnt.1 x hx
+              rw [evEq_trans heq (evEq_symm hq)] at this; cases this
+          · right
+            exact lift t best best bi (fun z hz => hge z (List.mem_cons_of_mem _ hz)) (Or.inr rfl) h'
+        · rename_i hne
+          have hne : evEq h best = false := by simpa using hne
+          rcases ih (i+1) best bi hs' hn' hc'.2 hb' with h' | h'
+          · left
+            refine ⟨h'.1, ?_⟩
+            rw [clean_cons]
+            refine ⟨?_, h'.2⟩
+            intro x hx
+            rcases List.mem_cons.mp hx with rfl | hxt
+            · exact hne
+            · cases hq : evEq x best
+              · rfl
+              · exfalso
+                have hl := hb (h :: t) List.mem_cons_self x hx hq
+                -- key x = key best ≤ key h ≤ key x
+                have k1 := (evLt_false_iff _ _).mp hlt
+                have k2 := (evLt_false_iff _ _).mp (hht x hx)
+                have k3 : x.from_ = best.from_ := evEq_from hq
+                have hhx : h = x := hl h List.mem_cons_self (by rw [k3] at k2 ⊢; omega)
+                have := hnt.1 x hxt
+                rw [hhx, evEq_refl] at this; cases this
+          · right
+            exact lift (h :: t) best best bi hge (Or.inr rfl) h'
+
+/-! ### `lstep` -/
+
+theorem lfirst_spec : ∀ (ls : List (List Event)) (i : Nat),
+    (lfirst ls i = none ∧ ∀ l ∈ ls, l = []) ∨
+    ∃ E h t rest, ls = E ++ (h :: t) :: rest ∧ (∀ l ∈ E, l = []) ∧ lfirst ls i = some (i + E.length) := by
+  intro ls
+  induction ls with
+  | nil => intro i; exact Or.inl ⟨rfl, fun l hl => by cases hl⟩
+  | cons l ls ih =>
+    intro i
+    cases l with
+    | nil =>
+      simp only [lfirst, List.isEmpty_nil, if_true]
+      rcases ih (i+1) with h | ⟨E, h, t, rest, h1, h2, h3⟩
+      · left
+        refine ⟨h.1, ?_⟩
+        intro l hl
+        rcases List.mem_cons.mp hl with rfl | hl
+        · rfl
+        · exact h.2 l hl
+      · right
+        refine ⟨[] :: E, h, t, rest, by rw [h1]; rfl, ?_, ?_⟩
+        · intro l hl
+          rcases List.mem_cons.mp hl with rfl | hl
+          · rfl
+          · exact h2 l hl
+        · rw [h3, List.length_cons]; congr 1; omega
+    | cons h t =>
+      right
+      exact ⟨[], h, t, ls, rfl, fun l hl => (by cases hl), rfl⟩
+
+theorem lfirst_append : ∀ (E : List (List Event)) (h : Event) (t : List Event) (rest : List (List Event)) (i : Nat),
+    (∀ l ∈ E, l = []) → lfirst (E ++ (h :: t) :: rest) i = some (i + E.length) := by
+  intro E
+  induction E with
+  | nil => intro h t rest i _; rfl
+  | cons a E ih =>
+    intro h t rest i hE
+    have ha : a = [] := hE a List.mem_cons_self
+    subst ha
+    simp only [List.cons_append, lfirst, List.isEmpty_nil, if_true, List.length_cons]
+    rw [ih h t rest (i+1) (fun l hl => hE l (List.mem_cons_of_mem _ hl))]
+    congr 1; omega
+
+theorem lfirst_none : ∀ (ls : List (List Event)) (i : Nat), (∀ l ∈ ls, l = []) → lfirst ls i = none := by
+  intro ls
+  induction ls with
+  | nil => intro i _; rfl
+  | cons a ls ih =>
+    intro i h
+    have ha : a = [] := h a List.mem_cons_self
+    subst ha
+    simp only [lfirst, List.isEmpty_nil, if_true]
+    exact ih _ (fun l hl => h l (List.mem_cons_of_mem _ hl))
+
+theorem split_cases (ls : List (List Event)) :
+    (∀ l ∈ ls, l = []) ∨ ∃ E h t rest, ls = E ++ (h :: t) :: rest ∧ (∀ l ∈ E, l = []) := by
+  rcases lfirst_spec ls 0 with h | ⟨E, h, t, rest, h1, h2, _⟩
+  · exact Or.inl h.2
+  · exact Or.inr ⟨E, h, t, rest, h1, h2⟩
+
+theorem lstep_empty {ls : List (List Event)} (h : ∀ l ∈ ls, l = []) (b : Bool) :
+    lstep ls b = (Event.nul, []) := by
+  simp only [lstep, lfirst_none ls 0 h]
+
+/-- a step on lists with a first non-empty one -/
+theorem lstep_split (E : List (List Event)) (h : Event) (t : List Event) (rest : List (List Event))
+    (hE : ∀ l ∈ E, l = []) (b : Bool) :
+    lstep (E ++ (h :: t) :: rest) b = ((lscan rest (E.length+1) h E.length).2.1,
+        if b then popAt (lscan rest (E.length+1) h E.length).2.2 (E ++ (h :: t) :: (lscan rest (E.length+1) h E.length).1)
+        else E ++ (h :: t) :: (lscan rest (E.length+1) h E.length).1) := by
+  have e1 : E ++ (h :: t) :: rest = (E ++ [h :: t]) ++ rest := by simp
+  have elen : (E ++ [h :: t]).length = E.length + 1 := by simp
+  have e2 : (E ++ (h :: t) :: rest).drop (E.length + 1) = rest := by rw [e1]; exact List.drop_left' elen
+  have e3 : (E ++ (h :: t) :: rest).take (E.length + 1) = E ++ [h :: t] := by rw [e1]; exact List.take_left' elen
+  have e4 : (E ++ (h :: t) :: rest).getD E.length [] = h :: t := by
+    rw [List.getD_eq_getElem?_getD, List.getElem?_append_right (Nat.le_refl _)]
+    simp
+  simp only [lstep, lfirst_append E h t rest 0 hE, Nat.zero_add, e2, e3, e4, hd_cons, List.append_assoc,
+    List.singleton_append]
+
+/-- peek and pop answer the same -/
+theorem lstep_val (ls : List (List Event)) : (lstep ls false).1 = (lstep ls true).1 := by
+  rcases split_cases ls with h | ⟨E, h, t, rest, h1, h2⟩
+  · rw [lstep_empty h, lstep_empty h]
+  · rw [h1, lstep_split E h t rest h2, lstep_split E h t rest h2]
+
+theorem lstep_suf (ls : List (List Event)) (b : Bool) : LSuf (lstep ls b).2 ls := by
+  rcases split_cases ls with h | ⟨E, h, t, rest, h1, h2⟩
+  · rw [lstep_empty h]; exact LSuf.nil _
+  · rw [h1, lstep_split E h t rest h2]
+    have : LSuf (E ++ (h :: t) :: (lscan rest (E.length+1) h E.length).1) (E ++ (h :: t) :: rest) :=
+      LSuf.append_left E (LSuf.cons (List.suffix_refl _) (lscan_suf _ _ _ _))
+    cases b
+    · exact this
+    · exact (popAt_suf _ _).trans this
+
+/-- the shape of the state after a peek and after a pop: the answer is the head of one list,
+the pop removes it -/
+theorem lstep_decomp (ls : List (List Event)) :
+    (∀ l ∈ ls, l = []) ∨
+    ∃ A t B, (lstep ls false).2 = A ++ ((lstep ls false).1 :: t) :: B ∧ (lstep ls true).2 = A ++ t :: B := by
+  rcases split_cases ls with h | ⟨E, h, t, rest, h1, h2⟩
+  · exact Or.inl h
+  · right
+    rw [h1, lstep_split E h t rest h2, lstep_split E h t rest h2]
+    simp only [Bool.false_eq_true, if_false, if_true]
+    rcases lscan_cases rest (E.length+1) h E.length with hc | ⟨pre, t', post, hc1, hc2⟩
+    · refine ⟨E, t, (lscan rest (E.length+1) h E.length).1, ?_, ?_⟩
+      · rw [hc]
+      · rw [hc]; exact popAt_length_append E (h :: t) _
+    · refine ⟨E ++ (h :: t) :: pre, t', post, ?_, ?_⟩
+      · rw [hc1]; simp
+      · rw [hc2, hc1]
+        have : E ++ (h :: t) :: (pre ++ ((lscan rest (E.length+1) h E.length).2.1 :: t') :: post)
+            = (E ++ (h :: t) :: pre) ++ ((lscan rest (E.length+1) h E.length).2.1 :: t') :: post := by simp
+        rw [this]
+        have hl : E.length + 1 + pre.length = (E ++ (h :: t) :: pre).length := by simp; omega
+        rw [hl]
+        exact popAt_length_append _ _ _
+
+theorem lstep_total_le (ls : List (List Event)) (b : Bool) : total (lstep ls b).2 ≤ total ls :=
+  (lstep_suf ls b).total_le
+
+/-- a pop that finds an event shortens the sources -/
+theorem lstep_total_pop (ls : List (List Event)) (h : ¬ ∀ l ∈ ls, l = []) :
+    total (lstep ls true).2 < total ls := by
+  rcases lstep_decomp ls with h' | ⟨A, t, B, h1, h2⟩
+  · exact absurd h' h
+  · have := lstep_total_le ls false
+    rw [h1] at this
+    rw [h2]
+    simp only [total_append, total, List.length_cons] at this ⊢
+    omega
+
+/-- the answer is an event of a source (nothing is invented) -/
+theorem lstep_mem (ls : List (List Event)) (b : Bool) :
+    (∀ l ∈ ls, l = []) ∨ ∃ l ∈ ls, (lstep ls b).1 ∈ l := by
+  rcases lstep_decomp ls with h' | ⟨A, t, B, h1, _⟩
+  · exact Or.inl h'
+  · right
+    have hm : ((lstep ls false).1 :: t) ∈ (lstep ls false).2 := by rw [h1]; simp
+    obtain ⟨l, hl, hs⟩ := (lstep_suf ls false).mem _ hm
+    refine ⟨l, hl, ?_⟩
+    have : (lstep ls b).1 = (lstep ls false).1 := by
+      cases b
+      · rfl
+      · exact (lstep_val ls).symm
+    rw [this]
+    exact hs.subset List.mem_cons_self
+
+/-- nul is answered exactly when all sources are exhausted -/
+theorem lstep_nul_iff {ls : List (List Event)} (hv : Valid ls) (b : Bool) :
+    (lstep ls b).1.isNul = true ↔ ∀ l ∈ ls, l = [] := by
+  constructor
+  · intro h
+    rcases lstep_mem ls b with h' | ⟨l, hl, hm⟩
+    · exact h'
+    · rw [(hv l hl).1 _ hm] at h; cases h
+  · intro h
+    rw [lstep_empty h]; rfl
+
+/-- the answer is at most every event of every source -/
+theorem lstep_min {ls : List (List Event)} (hv : Valid ls) (b : Bool) :
+    ∀ l ∈ ls, ∀ x ∈ l, evLt x (lstep ls b).1 = false := by
+  rcases split_cases ls with h | ⟨E, h, t, rest, h1, h2⟩
+  · intro l hl x hx; rw [h l hl] at hx; cases hx
+  · rw [h1, lstep_split E h t rest h2]
+    rw [h1] at hv
+    have hs : ∀ l ∈ rest, Sorted l := fun l hl => (hv l (by simp [hl])).2
+    have hsh : Sorted (h :: t) := (hv _ (by simp)).2
+    obtain ⟨m1, m2⟩ := lscan_min rest (E.length+1) h E.length hs
+    intro l hl x hx
+    rcases List.mem_append.mp hl with hl | hl
+    · rw [h2 l hl] at hx; cases hx
+    · rcases List.mem_cons.mp hl with rfl | hl
+      · exact le_trans' m1 (hsh.head_le x hx)
+      · exact m2 l hl x hx
+
+/-- no source event is lost by a step: it stays, or an identical one stays, or it is the one popped -/
+theorem lstep_keep (ls : List (List Event)) (b : Bool) :
+    ∀ l ∈ ls, ∀ x ∈ l,
+      (∃ l' ∈ (lstep ls b).2, ∃ x' ∈ l', evEq x' x = true) ∨ (b = true ∧ evEq (lstep ls b).1 x = true) := by
+  have peek : ∀ l ∈ ls, ∀ x ∈ l, ∃ l' ∈ (lstep ls false).2, ∃ x' ∈ l', evEq x' x = true := by
+    rcases split_cases ls with h | ⟨E, h, t, rest, h1, h2⟩
+    · intro l hl x hx; rw [h l hl] at hx; cases hx
+    · rw [h1, lstep_split E h t rest h2]
+      simp only [Bool.false_eq_true, if_false]
+      intro l hl x hx
+      rcases List.mem_append.mp hl with hl | hl
+      · rw [h2 l hl] at hx; cases hx
+      · rcases List.mem_cons.mp hl with rfl | hl
+        · exact ⟨h :: t, by simp, x, hx, evEq_refl x⟩
+        · rcases lscan_keep rest (E.length+1) h E.length l hl x hx with ⟨l', hl', x', hx', he⟩ | he
+          · exact ⟨l', by simp [hl'], x', hx', he⟩
+          · exact ⟨h :: t, by simp, h, List.mem_cons_self, he⟩
+  intro l hl x hx
+  cases b
+  · exact Or.inl (peek l hl x hx)
+  · rcases lstep_decomp ls with h' | ⟨A, t, B, h1, h2⟩
+    · rw [h' l hl] at hx; cases hx
+    · obtain ⟨l', hl', x', hx', he⟩ := peek l hl x hx
+      rw [h1] at hl'
+      rw [h2, ← lstep_val]
+      rcases List.mem_append.mp hl' with hl' | hl'
+      · exact Or.inl ⟨l', by simp [hl'], x', hx', he⟩
+      · rcases List.mem_cons.mp hl' with rfl | hl'
+        · rcases List.mem_cons.mp hx' with rfl | hx'
+          · exact Or.inr ⟨rfl, he⟩
+          · exact Or.inl ⟨t, by simp, x', hx', he⟩
+        · exact Or.inl ⟨l', by simp [hl'], x', hx', he⟩
+
+/-- after a peek the next call answers the same event -/
+theorem lstep_again_val {ls : List (List Event)} (hv : Valid ls) (b : Bool) :
+    (lstep (lstep ls false).2 b).1 = (lstep ls false).1 := by
+  rcases split_cases ls with h | ⟨E, h, t, rest, h1, h2⟩
+  · rw [lstep_empty h, lstep_empty (fun l hl => by cases hl)]
+  · rw [h1, lstep_split E h t rest h2]
+    rw [h1] at hv
+    have hs : ∀ l ∈ rest, Sorted l := fun l hl => (hv l (by simp [hl])).2
+    simp only [Bool.false_eq_true, if_false]
+    rw [lstep_split E h t _ h2, lscan_again_best rest (E.length+1) h E.length hs]
+
+/-- if no source lists an occurrence twice a peek changes nothing for the following calls -/
+theorem lstep_again {ls : List (List Event)} (hv : Valid ls) (hn : ∀ l ∈ ls, NoTwin l) (b : Bool) :
+    lstep (lstep ls false).2 b = lstep ls b := by
+  rcases split_cases ls with h | ⟨E, h, t, rest, h1, h2⟩
+  · rw [lstep_empty h false, lstep_empty h b, lstep_empty (fun l hl => by cases hl)]
+  · rw [h1, lstep_split E h t rest h2, lstep_split E h t rest h2]
+    rw [h1] at hv hn
+    have hs : ∀ l ∈ rest, Sorted l := fun l hl => (hv l (by simp [hl])).2
+    have hn' : ∀ l ∈ rest, NoTwin l := fun l hl => hn l (by simp [hl])
+    simp only [Bool.false_eq_true, if_false]
+    rw [lstep_split E h t _ h2, lscan_again rest (E.length+1) h E.length hs hn']
+
+/-- under the guard no event identical to the popped one is left in any source -/
+theorem lstep_collapse {ls : List (List Event)} (hv : Valid ls) (hg : Guard ls) :
+    Clean (lstep ls true).1 (lstep ls true).2 := by
+  rcases split_cases ls with h | ⟨E, h, t, rest, h1, h2⟩
+  · rw [lstep_empty h]; intro l hl; cases hl
+  · rw [h1, lstep_split E h t rest h2]
+    rw [h1] at hv hg
+    have hs : ∀ l ∈ rest, Sorted l := fun l hl => (hv l (by simp [hl])).2
+    have hn' : ∀ l ∈ rest, NoTwin l := fun l hl => hg.1 l (by simp [hl])
+    have hsh : Sorted (h :: t) := (hv _ (by simp)).2
+    have hnh : NoTwin (h :: t) := hg.1 _ (by simp)
+    have hp := (List.pairwise_append.mp hg.2).2.1
+    have hp' := List.pairwise_cons.mp hp
+    have hb : ∀ l ∈ rest, ∀ y ∈ l, evEq y h = true → Lone y l := by
+      intro l hl y hy he
+      exact (hp'.1 l hl h List.mem_cons_self y hy (evEq_symm he)).2
+    simp only [if_true]
+    rcases lscan_collapse rest (E.length+1) h E.length hs hn' hp'.2 hb with ⟨hc1, hc2⟩ | ⟨pre, t', post, hc1, hc2, hc3, hc4⟩
+    · rw [hc1]
+      rw [popAt_length_append E (h :: t) _, clean_append, clean_cons]
+      refine ⟨clean_of_empty _ h2, ?_, hc2⟩
+      intro x hx
+      rw [evEq_comm]; exact (List.pairwise_cons.mp hnh).1 x hx
+    · rw [hc2, hc1]
+      have : E ++ (h :: t) :: (pre ++ ((lscan rest (E.length+1) h E.length).2.1 :: t') :: post)
+          = (E ++ (h :: t) :: pre) ++ ((lscan rest (E.length+1) h E.length).2.1 :: t') :: post := by simp
+      rw [this]
+      have hl : E.length + 1 + pre.length = (E ++ (h :: t) :: pre).length := by simp; omega
+      rw [hl, popAt_length_append]
+      simp only [List.tail_cons]
+      rw [clean_append] at hc4
+      rw [clean_append, clean_append, clean_cons]
+      exact ⟨⟨clean_of_empty _ h2, gt_clean hc3 hsh.head_le, hc4.1⟩, hc4.2⟩
+
 end Echse.Stream
